@@ -39,6 +39,72 @@ def _conj(c):
     return out
 
 
+def _usage_pass(F):
+    import models
+    cands = [p for p in F.fns if p.endswith("::stack_validate") and F.fns[p].get("thir")]
+    if len(cands) != 1:
+        return False, "stack_validate candidates: %s" % cands
+    path = cands[0]
+    fn = F.fns[path]
+    blk = idxv = None
+    for n in walk(fn["thir"]["body"]):
+        if n.get("k") == "block":
+            for st in n["stmts"]:
+                if st["k"] == "let" and st.get("init") and (callee_path(strip(st["init"])) or "").endswith("get_insn"):
+                    a = strip(strip(st["init"])["args"][1])
+                    if a.get("k") in ("var", "upvar"):
+                        blk, idxv = n, a
+    if blk is None:
+        return False, "no `let insn = get_insn(prog, idx)` in %s" % path
+    ev = symex.Evaluator(F, opaque_calls=lambda q: q.endswith("calculate_stack_usage_for_local_func"))
+    owner = ev.owner_of(path)
+    outs = ev.ev(blk, symex.St().set((owner, idxv["id"]), ("v", idxv["name"], 64)), path)
+    cn = lambda t: models.canon(t, idxv["name"])
+    target = T.op("add", 64, T.op("add", 64, ("v", "pc", 64), T.K(64, 1)), T.sext(64, ("v", "imm", 32)))
+    is_call = T.land(T.cmp("eq", 8, ("v", "src", 8), T.K(8, 1)), T.cmp("eq", 8, ("v", "opc", 8), T.K(8, CALL)))
+    probs, n_ins = [], 0
+    for _v, st in outs:
+        conds = [cn(c) for c in st.conds]
+        flat = set()
+        for c in conds:
+            stack = [c]
+            while stack:
+                x = stack.pop()
+                if isinstance(x, tuple) and x and x[0] == "land":
+                    stack.extend([x[1], x[2]])
+                else:
+                    flat.add(x)
+        local = {T.cmp("eq", 8, ("v", "src", 8), T.K(8, 1)), T.cmp("eq", 8, ("v", "opc", 8), T.K(8, CALL))} <= flat
+        calc = [e for e in st.effects if e[0] == "call" and isinstance(e[1], str) and e[1].endswith("calculate_stack_usage_for_local_func")]
+        ins = [e for e in st.effects if e[0] == "call" and isinstance(e[1], str) and e[1].endswith("::insert")]
+        failed = any(isinstance(c, tuple) and c and c[0] == "not" and "is_ok" in repr(c)[:40] for c in conds)
+        if st.unrec:
+            probs.append("unrecognised: %s" % (st.unrec[0],))
+        if local:
+            if failed:
+                continue        # the calculator's own error is propagated
+            extra = [c for c in flat if c not in (T.cmp("eq", 8, ("v", "src", 8), T.K(8, 1)), T.cmp("eq", 8, ("v", "opc", 8), T.K(8, CALL))) and "is_ok" not in repr(c)[:60]]
+            if extra:
+                probs.append("a local call is subject to a further condition: %s" % _shc(extra[0]))
+            if not (len(calc) == 1 and cn(calc[0][2][-1]) == target):
+                probs.append("calculator asked about %s" % ([_shc(cn(e[2][-1])) for e in calc] or "nothing"))
+            if not (len(ins) == 1 and cn(ins[0][2][1]) == target):
+                probs.append("table entry under %s" % ([_shc(cn(e[2][1])) for e in ins] or "nothing"))
+            n_ins += 1
+        elif ins or calc:
+            probs.append("an instruction that is not a local call adds an entry")
+    if n_ins == 0:
+        probs.append("no path handles a local call")
+    return not probs, sorted(set(probs)) or "one entry per local call at %s" % T.show(target)
+
+
+def _shc(t):
+    try:
+        return T.show(t)[:90]
+    except Exception:
+        return repr(t)[:90]
+
+
 def run(rep, tier):
     cx = Ctx(rep, "std")
     F = cx.F
@@ -208,6 +274,12 @@ def run(rep, tier):
         calls = [callee_path(n) for n in walk(fnw["thir"]["body"]) if n.get("k") == "call"] if fnw else []
         deleg.append(any((c or "").endswith("::set_stack_usage_calculator") for c in calls))
     rep.ob(rg, "wrappers", all(deleg) and len(deleg) == 3, "the other VM kinds delegate set_stack_usage_calculator", expected=[True] * 3, found=deleg)
+
+    # R07.h the frame-size table gets an entry for the target of every local call
+    rh = rep.rule("R07.h", "stack-usage pass: for every instruction with opc == CALL && src == 1 the calculator is asked about, and the table receives an entry for, pc + 1 + sext(imm) (full width, either direction); no other instruction adds entries", floor=1)
+    okh, foundh = _usage_pass(F)
+    rep.ob(rh, "stack_validate", okh, "loop body of the stack-usage pass", expected="insert(pc + 1 + sext64(imm), calculator(prog, pc + 1 + sext64(imm))) exactly under opc == 0x85 && src == 1",
+           found=foundh)
 
     # R07.d discriminator agreement
     rd = rep.rule("R07.d", "is-a-local-call discriminator (opc == CALL && src == 1) agrees in verifier, interpreter, JIT and stack-usage pass", floor=4)
